@@ -549,8 +549,12 @@ def gen_history(seed, length, profile, workdir, with_times, k):
     g = Gen(rnd, r, profile)
     ops = []
     results = []
-    for _ in range(length):
-        op = g.next_op()
+    prelude = []
+    if profile.get("preludes") and rnd.random() < profile.get("prelude_prob", 0.5):
+        prelude = [tuple(tuple(x) if isinstance(x, list) and x and x[0] in ("name", "pos", "obj", "idof") else x for x in o)
+                   for o in rnd.choice(profile["preludes"])]
+    for k in range(length):
+        op = prelude[k] if k < len(prelude) else g.next_op()
         ops.append(op)
         res = r.run_op(op)
         results.append(res)
